@@ -295,5 +295,16 @@ def splitter(ctx, cfg, fs):
             if rs and any(r.kind == 'call' and r.call.is_(r'Iterator>?::count$') and 'Chars' in r.call.full for r in rs):
                 wok = True; how = 'chars().count() of the word'
     ctx.ob('S.splitter', 'Splitter::next:width-counts-every-character', wok, 'the width reported with a word counts every character of it: %s' % (how or 'no counting form recognised'), where=b.where(), cfg=cfg)
+    # a fenced block ends at a line that STARTS with the fence, exactly as it begins at one: every test against the fence literal is a
+    # prefix test (an equality test would keep "``` " or "````" - and all the prose after it - inside the unwrapped code block)
+    fence = []
+    for c in b.calls():
+        ks = [r.what for a in c.args for r in provenance(b, a, c.bb, 'term') if r.kind == 'const' and isinstance(r.what, str) and '```' in r.what]
+        if ks:
+            fence.append((c.name.split('::')[-1], c.is_(r'str::<impl str>::(starts_with|strip_prefix)')))
+    ctx.ob('S.splitter', 'Splitter::next:fence-tests-are-prefix-tests', len(fence) >= 2 and all(ok_ for (_, ok_) in fence), 'the code-fence literal is used with %s' % sorted({n_ for (n_, _) in fence}), where=b.where(), cfg=cfg)
+    sk = fs.adt('buffer::Skip')
+    tys = [f['ty'] for f in sk['variants'][0]['fields']] if sk and sk.get('variants') else []
+    ctx.ob('S.splitter', 'Skip:is-a-depth-counter', tys == ['usize'], 'buffer::Skip holds %s (inline blocks nest: "skipping since depth n" needs a counter, a flag would be cleared by the first nested block that ends)' % tys, cfg=cfg)
     ch = fs.adt('buffer::splitter::Chunk')
     ctx.ob('S.splitter', 'Chunk:variants', [v['name'] for v in ch['variants']] == ['Raw', 'Paragraph', 'LineBreak'], 'Chunk has the variants %s' % [v['name'] for v in ch['variants']], cfg=cfg)
